@@ -199,14 +199,19 @@ def corr_looprun(ck: core.Check, drv) -> None:
                                           "v0": [{"e": "f32", "s": shape}]})
                             if c0:  # the same run with `cond` OMITTED: the model's c0 = true is what the runtime does
                                 cases.append(dict(cases[-1], omit=True))
-    model = drv.ask_many("C06", [dict(c, k="looprun") for c in cases])
+                            if M == 0 and False in conds:  # ... and with the TRIP COUNT omitted (the body must stop by itself)
+                                cases.append(dict(cases[-1 - int(c0)], noM=True))
+                                if c0:
+                                    cases.append(dict(cases[-1], omit=True))
+    model = drv.ask_many("C06", [dict({k: v for k, v in c.items() if not (k == "M" and c.get("noM")) and not (k == "c0" and c.get("omit"))},
+                                      k="looprun") for c in cases])
     mism = ran = zero = 0
     sessions: dict = {}
     empties = []
     for c, mo in zip(cases, model):
         shape = c["v0"][0]["s"]
         decl = list(shape) if c["declared"] == "const" else [None] * len(shape)
-        key = (c["body"], tuple(c["conds"]), json.dumps(decl), bool(c.get("omit")))
+        key = (c["body"], tuple(c["conds"]), json.dumps(decl), bool(c.get("omit")), bool(c.get("noM")))
         if key not in sessions:
             args = P.make_args({"x": L.ty_from_json({"e": "f32", "s": decl}),
                                 "m": L.ty_from_json({"e": "i64", "s": []}), "c": L.ty_from_json({"e": "bool", "s": [1]})})
@@ -221,7 +226,7 @@ def corr_looprun(ck: core.Check, drv) -> None:
 
             with warnings.catch_warnings():
                 warnings.simplefilter("ignore")
-                outs = op.loop(args["m"], None if c.get("omit") else args["c"], v_initial=[args["x"]], body=body)
+                outs = op.loop(None if c.get("noM") else args["m"], None if c.get("omit") else args["c"], v_initial=[args["x"]], body=body)
             m, _ = P.build_exposed(args, list(outs))
             sessions[key] = P._session(m.SerializeToString())
         feed = {"x": np.zeros(shape, np.float32), "m": np.array(c["M"], np.int64), "c": np.array([c["c0"]], np.bool_)}
@@ -249,6 +254,7 @@ def corr_looprun(ck: core.Check, drv) -> None:
             mism += 1
             ck.broken("correspondence", "emptyScanOk runtime-spec-vs-onnxruntime", f"case={json.dumps(c)} scan output={w} declared slice type={t} model={v}")
     ck.cov["looprun_correspondence"] = {"cases": len(cases), "cond_omitted_cases": sum(1 for c in cases if c.get("omit")),
+                                        "trip_count_omitted_cases": sum(1 for c in cases if c.get("noM")),
                                         "onnxruntime_accepted": ran, "zero_iteration_cases": zero, "mismatches": mism}
 
 
@@ -630,6 +636,34 @@ def oracle_term_loops(ck: core.Check) -> dict:
     return stats
 
 
+def oracle_unary_all(ck: core.Check) -> dict:
+    """EVERY constructor of every opset module (5 ai.onnx + 3 ml) that can be applied to one Var, on an
+    input with distinct constant dims (f32[1,2,3,3] first): whatever type is reported vs. the runtime."""
+    cases = V.unary_cases(ck.thorough)
+    stats = {"programs": 0, "rejected": 0, "runs": 0, "runs_refused_by_runtime": 0, "vars_checked": 0, "operators_applied": 0,
+             "not_observable": [], "per_module_operators": {}}
+    for c in cases:
+        case = dict(c, kind="unary-all")
+        st = V.run_unary_all(case, ck.rng, SIZES, 2)
+        stats["programs"] += 1
+        stats["per_module_operators"][c["module"]] = stats["per_module_operators"].get(c["module"], 0) + len(c["ops"])
+        if st.get("rejected"):
+            stats["rejected"] += 1
+            stats["not_observable"] += [f"{c['module']}:{n}" for n in c["ops"]]
+            continue
+        stats["runs"] += st["runs"]
+        stats["runs_refused_by_runtime"] += st["refused"]
+        stats["vars_checked"] += st["checked"]
+        stats["operators_applied"] += st.get("applied", 0)
+        stats["not_observable"] += [f"{c['module']}:{n}" for n in st.get("unloadable", [])]
+        for n in c["ops"]:
+            ck.count(("unary-all", c["module"], n, c.get("symbolic", False)) if st["checked"] else None)
+        report(ck, st["fails"], case)
+    if stats["operators_applied"] < 300:
+        ck.broken("correspondence", "single-input operators not observable", f"only {stats['operators_applied']} constructors could be applied")
+    return stats
+
+
 def oracle_scan_families(ck: core.Check) -> dict:
     cases = [dict(sc, module=m) for m in P.OPSET_MODULES for sc in V.SCAN_FAMILY]
     stats = _family(ck, "scan-family", cases, V.run_scan_family, ck.pick(3, 6))
@@ -752,6 +786,7 @@ def run(ck: core.Check):
     ck.cov["oracle_term_loops"] = _facet(ck, "termination-Loop oracle", oracle_term_loops, ck)
     ck.log("termination-Loop oracle done")
     ck.cov["oracle_scan_families"] = _facet(ck, "Scan-family oracle", oracle_scan_families, ck)
+    ck.cov["oracle_unary_all"] = _facet(ck, "all single-input operators oracle", oracle_unary_all, ck)
     ck.cov["oracle_vdep"] = _facet(ck, "value-dependent inference oracle", oracle_vdep, ck)
     ck.log("value-dependent oracle done")
     ck.cov["oracle_programs"] = _facet(ck, "program oracle", oracle_programs, ck)
@@ -809,6 +844,8 @@ def replay(ck: core.Check, doc) -> bool:
         st = V.run_scan_family(case, rng, SIZES, 6, extra_feeds=extra)
     elif case.get("kind") == "vdep":
         st = V.run_vdep(case, rng, SIZES, 1, extra_feeds=extra)
+    elif case.get("kind") == "unary-all":
+        st = V.run_unary_all(case, rng, SIZES, 2, extra_feeds=extra)
     elif case.get("kind") == "witness":
         st = P.run_witness(case)
     elif case.get("kind") == "nontensor":
